@@ -156,14 +156,14 @@ def path_parent(ex, t):
     f = puf('path_parent')
     # instance: a path built as base / seg (seg without '/') has parent base
     for base, seg in path_join_parts(t):
-        ex.run.assume(z3.Implies(z3.Not(z3.Contains(seg, z3.StringVal('/'))), f(t) == base))
+        ex.run.axiom(z3.Implies(z3.Not(z3.Contains(seg, z3.StringVal('/'))), f(t) == base))
     return f(t)
 
 
 def path_name(ex, t):
     f = puf('path_name')
     for base, seg in path_join_parts(t):
-        ex.run.assume(z3.Implies(z3.Not(z3.Contains(seg, z3.StringVal('/'))), f(t) == seg))
+        ex.run.axiom(z3.Implies(z3.Not(z3.Contains(seg, z3.StringVal('/'))), f(t) == seg))
     return f(t)
 
 
